@@ -71,6 +71,24 @@ func (c *Core) modelRoute(rec *ReqRec) int {
 	return def
 }
 
+func offence(b string) string {
+	switch b {
+	case "plaintext":
+		return "sent plaintext LDAP to the TLS port"
+	case "garbage":
+		return "sent arbitrary bytes"
+	case "silent":
+		return "never sent a ClientHello"
+	case "abandon":
+		return "abandoned the handshake"
+	case "nocert":
+		return "presented no client certificate"
+	case "wrongca":
+		return "presented a certificate from another CA"
+	}
+	return b
+}
+
 func (c *Core) unbindRoute() int {
 	u := -1
 	for i, rt := range c.Cfg.Routes {
@@ -115,6 +133,10 @@ func (c *Core) onEnter(s *Sim, e *simrt.Event) {
 	}
 	if c.cleanBefore(q) && !q.Corrupt && e.B != int64(q.Pos) {
 		s.Violate("C06", "numbering", "request-id-differs-from-arrival-order", fmt.Sprintf("m=%d is frame %d on %s but Request.ID=%d", e.Msg, q.Pos, cl.name(), e.B))
+	}
+	// C18: only a client that satisfies the TLS configuration may reach a handler
+	if cl.Offending {
+		s.Violate("C18", "gate", fmt.Sprintf("client=%s tls-mode=%d", cl.Behaviour, c.Cfg.TLSMode), fmt.Sprintf("m=%d (%s) from %s, which %s, was dispatched to route %d", e.Msg, op, cl.name(), offence(cl.Behaviour), e.A))
 	}
 	// C09
 	if e.Conn <= 0 {
@@ -586,9 +608,21 @@ func keys(m map[string]bool) []string {
 	return k
 }
 
+// bystanderViolation blames a wrongly served bystander on the property whose
+// faults the run injects.
+func (c *Core) bystanderViolation(s *Sim, key, detail string) {
+	s.Violate("C07", "bystanders", key, detail)
+	if c.Cfg.Prop == "C02" {
+		s.Violate("C02", "isolated", key, detail)
+	}
+	if c.Cfg.TLSMode > 0 {
+		s.Violate("C18", "isolated", key, detail)
+	}
+}
+
 func (c *Core) finishClient(s *Sim, cl *Client) {
 	cfg := c.Cfg
-	if cl.Late && cl.dialed && c.stopCalls == 0 {
+	if cl.Late && cl.dialed && c.stopCalls == 0 && !c.runRet {
 		if cl.refused || !cl.accepted {
 			s.Violate("C07", "accepts-after", "new-connection-not-accepted", fmt.Sprintf("%s connected after the fault and was never accepted (refused=%v)", cl.name(), cl.refused))
 		} else {
@@ -598,8 +632,23 @@ func (c *Core) finishClient(s *Sim, cl *Client) {
 	if cl.ep == nil || !cl.accepted {
 		return
 	}
+	if cl.Offending {
+		s.Probe("C18-offending-client-" + cl.Behaviour)
+		if c.runRet && c.stopCalls == 0 {
+			s.Violate("C18", "isolated", "run-returned", "Run returned after "+cl.name()+" "+offence(cl.Behaviour))
+		}
+	}
+	if cl.Flavour == 1 && !cl.Offending && !cl.disturbed && cl.dialed && c.stopCalls == 0 && cl.ended != "reset" && cl.hsErr != "" && cfg.ReadTimeout == 0 && cfg.WriteTimeout == 0 {
+		s.Violate("C18", "isolated", "conforming-client-rejected tls-mode="+fmt.Sprint(cfg.TLSMode)+" client="+cl.Behaviour, fmt.Sprintf("%s satisfies the configuration but its handshake failed: %s", cl.name(), cl.hsErr))
+	}
+	if cl.Flavour == 2 {
+		c.finishStartTLS(s, cl)
+	}
+	if cl.Flavour != 0 && (c.stopCalls > 0 || cfg.Lean || cfg.ReadTimeout != 0 || cfg.WriteTimeout != 0) {
+		return // a task client's byte stream is only judged on undisturbed runs
+	}
 	intact := !cl.ep.IsReset() && cl.ended != "reset" && cl.ended != "close"
-	drained := intact && !cl.paused && cl.ep.InFlightIn() == 0 && cl.ep.ReadyIn() == 0
+	drained := intact && !cl.paused && cl.ep.InFlightIn() == 0 && cl.ep.ReadyIn() == 0 && cfg.WriteTimeout == 0 && cfg.ReadTimeout == 0
 	if cl.rxErr != "" && !cl.ep.IsReset() {
 		rule, prop := "stream", "C05"
 		if !strings.HasPrefix(cl.rxErr, "framing") {
@@ -607,7 +656,7 @@ func (c *Core) finishClient(s *Sim, cl *Client) {
 		}
 		s.Violate(prop, rule, "malformed-frame", fmt.Sprintf("%s: %s", cl.name(), cl.rxErr))
 		if !cl.disturbed {
-			s.Violate("C07", "bystanders", "malformed-frame", fmt.Sprintf("%s: %s", cl.name(), cl.rxErr))
+			c.bystanderViolation(s, "malformed-frame", fmt.Sprintf("%s: %s", cl.name(), cl.rxErr))
 		}
 		return
 	}
@@ -623,7 +672,7 @@ func (c *Core) finishClient(s *Sim, cl *Client) {
 		}
 		op := q.Rec.Op
 		// delivery (C01.delivered / C03.once): the request must have reached a handler
-		servable := c.stopCalls == 0 && cl.ended != "reset" && !cl.ep.IsReset() && cl.ep.Peer.InFlightIn() == 0 && cfg.ReadTimeout == 0 && cfg.WriteTimeout == 0
+		servable := c.stopCalls == 0 && cl.ended != "reset" && !cl.ep.IsReset() && cl.ep.Peer.InFlightIn() == 0 && cfg.ReadTimeout == 0 && cfg.WriteTimeout == 0 && !cl.Offending && (cl.Flavour == 0 || cl.hsDone || cl.Flavour == 2)
 		want := c.modelRoute(q.Rec)
 		if op == "unbind" {
 			want = c.unbindRoute()
@@ -637,7 +686,7 @@ func (c *Core) finishClient(s *Sim, cl *Client) {
 			s.Violate("C03", "once", "dropped op="+op, fmt.Sprintf("m=%d (%s, frame %d on %s) was never handed to a handler", q.Rec.MsgID, op, q.Pos, cl.name()))
 			s.Violate("C01", "delivered", "op="+op, fmt.Sprintf("m=%d (%s, frame %d on %s) never reached a handler", q.Rec.MsgID, op, q.Pos, cl.name()))
 			if bystander {
-				s.Violate("C07", "bystanders", "request-dropped", fmt.Sprintf("m=%d on bystander %s never served", q.Rec.MsgID, cl.name()))
+				c.bystanderViolation(s, "request-dropped", fmt.Sprintf("m=%d on bystander %s never served", q.Rec.MsgID, cl.name()))
 			}
 			continue
 		}
@@ -700,7 +749,7 @@ func (c *Core) finishClient(s *Sim, cl *Client) {
 							s.Violate("C14", "response", f, fmt.Sprintf("m=%d response %d (%s): %s", q.Rec.MsgID, wi, ctor, det))
 						}
 						if bystander {
-							s.Violate("C07", "bystanders", "wrong-response", fmt.Sprintf("m=%d on bystander %s: %s", q.Rec.MsgID, cl.name(), det))
+							c.bystanderViolation(s, "wrong-response", fmt.Sprintf("m=%d on bystander %s: %s", q.Rec.MsgID, cl.name(), det))
 						}
 						gi++
 						continue
@@ -714,7 +763,7 @@ func (c *Core) finishClient(s *Sim, cl *Client) {
 			if okw[wi] && drained && q.exited >= q.entered {
 				s.Violate("C05", "multiset", "frame-lost", fmt.Sprintf("m=%d: write %d of %d returned nil, client received %d frames for it", q.Rec.MsgID, wi, len(q.writes), len(q.got)))
 				if bystander {
-					s.Violate("C07", "bystanders", "response-lost", fmt.Sprintf("m=%d on bystander %s", q.Rec.MsgID, cl.name()))
+					c.bystanderViolation(s, "response-lost", fmt.Sprintf("m=%d on bystander %s", q.Rec.MsgID, cl.name()))
 				}
 				break
 			}
@@ -723,7 +772,7 @@ func (c *Core) finishClient(s *Sim, cl *Client) {
 			s.Violate("C05", "multiset", "frame-duplicated-or-unknown", fmt.Sprintf("m=%d: %d writes attempted, %d frames received", q.Rec.MsgID, len(q.writes), len(q.got)))
 		}
 		if bystander && drained && q.exited >= q.entered && len(q.writes)+q.ctorPanic < len(q.Script.Resps) && !q.Script.Panic {
-			s.Violate("C07", "bystanders", "handler-did-not-finish", fmt.Sprintf("m=%d on bystander %s", q.Rec.MsgID, cl.name()))
+			c.bystanderViolation(s, "handler-did-not-finish", fmt.Sprintf("m=%d on bystander %s", q.Rec.MsgID, cl.name()))
 		}
 	}
 	// frames that belong to no request of this client
@@ -747,4 +796,49 @@ func (c *Core) finishClient(s *Sim, cl *Client) {
 		s.Probe("C05-several-frames-on-one-connection")
 	}
 	_ = cfg
+}
+
+// finishStartTLS: C13 for one upgraded connection.
+func (c *Core) finishStartTLS(s *Sim, cl *Client) {
+	var st *Req
+	for _, q := range cl.reqs {
+		if q.Script.StartTLS {
+			st = q
+		}
+	}
+	if st == nil || c.stopCalls > 0 || cl.ended == "reset" || cl.ep.IsReset() || cl.disturbed || c.Cfg.ReadTimeout != 0 || c.Cfg.WriteTimeout != 0 {
+		return
+	}
+	s.Probe("C13-starttls-session")
+	timing := fmt.Sprintf("handler-stall=%d", st.Script.StallAfter)
+	if st.entered == 0 {
+		return // C03/C01 report an undelivered request
+	}
+	if !cl.srvTLSOK || !cl.hsDone {
+		s.Violate("C13", "session", "handshake-failed "+timing, fmt.Sprintf("%s: conforming StartTLS client; server side: %q, client side: %q", cl.name(), cl.srvTLS, cl.hsErr))
+		return
+	}
+	if cl.ended == "" && !c.Cfg.Lean {
+		for _, q := range cl.reqs {
+			if q.Pos > st.Pos && !q.BehindUnbind && q.Rec.Supported() && q.Rec.Op != "unbind" && c.cleanBefore(q) && !c.answered(q) {
+				s.Violate("C13", "tunnel", "request-in-tunnel-unanswered "+timing, fmt.Sprintf("%s: m=%d (%s) sent inside the tunnel, %d of %d responses received", cl.name(), q.Rec.MsgID, q.Rec.Op, len(q.got), len(q.Script.Resps)))
+				break
+			}
+		}
+	}
+	// C13.wire: after the plain phase every byte in both directions is a TLS record
+	up := tapBytes(cl.ep)
+	down := tapBytes(cl.ep.Peer)
+	if cl.plainOut <= len(up) {
+		if ok, at, why := tlsRecordsOnly(up[cl.plainOut:]); !ok {
+			s.Violate("C13", "wire", "client-to-server-not-tls", fmt.Sprintf("%s: byte %d after the upgrade: %s", cl.name(), at, why))
+		}
+	}
+	if cl.plainIn <= len(down) {
+		if ok, at, why := tlsRecordsOnly(down[cl.plainIn:]); !ok {
+			s.Violate("C13", "wire", "server-to-client-not-tls", fmt.Sprintf("%s: byte %d after the StartTLS response: %s (plaintext sent after the upgrade)", cl.name(), at, why))
+		} else {
+			s.Probe("C13-wire-checked")
+		}
+	}
 }
